@@ -203,9 +203,10 @@ fn interp<'db>(db: &'db dyn PDb, e: &E, cx: Cx) -> V<'db> {
                 interp(db, b, cx)
             }
         }
-        // a literal identity constant >= 2 selects the "late specify" order: the struct is created
-        // BEFORE the flag and the specified value are evaluated (same meaning, other read order)
-        E::Mk(k, v, f, s) if matches!(**k, E::C(n) if n >= 2) => {
+        // a literal identity constant >= 1000 selects the "late specify" order: the struct is created
+        // BEFORE the flag and the specified value are evaluated (same meaning, other read order);
+        // no other generator (seq gen, tools/gen_corespec.py) emits such a literal
+        E::Mk(k, v, f, s) if matches!(**k, E::C(n) if n >= 1000) => {
             let kk = interp(db, k, cx).0 % 2;
             let vv = interp(db, v, cx).0;
             let t = Ts::new(db, kk, PV(vv));
@@ -740,7 +741,7 @@ fn oracle_case(case: &Case, obs: &[&str], ids: &[&str], st: &mut OracleStats, ca
     }
     fn late_mk(e: &E) -> bool {
         match e {
-            E::Mk(k, v, f, s) => matches!(**k, E::C(n) if n >= 2) || late_mk(v) || late_mk(f) || late_mk(s),
+            E::Mk(k, v, f, s) => matches!(**k, E::C(n) if n >= 1000) || late_mk(v) || late_mk(f) || late_mk(s),
             E::Add(a, b) | E::Min(a, b) | E::Max(a, b) | E::BOr(a, b) | E::BAnd(a, b) => late_mk(a) || late_mk(b),
             E::If(c, a, b) => late_mk(c) || late_mk(a) || late_mk(b),
             E::TsV(a) | E::TsK(a) | E::OnTs(a) | E::Spec(a) | E::Intern(a) | E::SymF(a) | E::OnSym(a) | E::Two(_, a) | E::Push(a) => late_mk(a),
@@ -767,6 +768,11 @@ fn oracle_case(case: &Case, obs: &[&str], ids: &[&str], st: &mut OracleStats, ca
     // recognise results that depend on the incremental history)
     let mut rev_no = 0u64;
     let mut first_value_rev: Option<u64> = None;
+    // known finding C12/kf2 is recognised by its mechanism, not by "some later value is wrong":
+    // a node that was a cycle member when it last executed and has been re-VALIDATED (event V,
+    // no execution) in the current revision
+    let mut member_at_last_exec = vec![false; nn];
+    let mut validated_in_rev = vec![false; nn];
     let mut fail = |st: &mut OracleStats, i: usize, msg: String| {
         // keep the first few failures of every distinct key (so that a rare key is never hidden
         // behind a frequent one) and count all of them per key
@@ -788,6 +794,27 @@ fn oracle_case(case: &Case, obs: &[&str], ids: &[&str], st: &mut OracleStats, ca
         }
         if evs.iter().any(|e| e.starts_with('V') || e.starts_with('D') || e.starts_with('R')) {
             nontrivial = true;
+        }
+        if cyclic {
+            if matches!(op, Op::Set(..) | Op::Synth(_)) {
+                validated_in_rev.iter_mut().for_each(|v| *v = false);
+            }
+            if evs.iter().any(|e| e.starts_with('X') || e.starts_with('V')) {
+                let (on_cycle, _) = cycle_info(&Env { prog: &case.prog, inputs: &inputs, cells: &cells });
+                for e in &evs {
+                    let (tag, rest) = e.split_at(1);
+                    let Ok(x) = rest.parse::<usize>() else { continue };
+                    if x >= nn {
+                        continue;
+                    }
+                    if tag == "X" {
+                        member_at_last_exec[x] = on_cycle[x];
+                        validated_in_rev[x] = false;
+                    } else if tag == "V" {
+                        validated_in_rev[x] = true;
+                    }
+                }
+            }
         }
         // C03 monitor (core fragment): every WillExecute must be justified by a change recorded by
         // this harness since the function's last validation (its last X or V event): an input field
@@ -1001,13 +1028,21 @@ fn oracle_case(case: &Case, obs: &[&str], ids: &[&str], st: &mut OracleStats, ca
                             && matches!(want, Outcome::Val(_) | Outcome::ValOrPanicCycle(_))
                             && fb_seen_in_earlier_rev
                             && !case.prog.nodes.iter().any(|n| n.0 == Kind::Fb)
+                            && {
+                                // some node in the cone of the request (the request included) was a
+                                // cycle member when it last ran and has only been re-validated since
+                                let (_, reach) = cycle_info(&env);
+                                (0..nn).any(|z| (z == *q || reach[*q][z]) && member_at_last_exec[z] && validated_in_rev[z])
+                            }
                         {
                             key = "fix-participant-stale-after-revalidation";
                         }
-                        if case.prog.nodes[*q].0 == Kind::Fb && main.starts_with("v=") && fb_seen_in_earlier_rev {
-                            // (the wrong participant value also propagates to its readers, so any
-                            // value mismatch of a fallback program in a later revision has this key;
-                            // first-revision evaluations are never excused)
+                        if case.prog.nodes[*q].0 == Kind::Fb && main.starts_with("v=") && fb_seen_in_earlier_rev && vh::prog::fallback_cone_has_cycle(&env)[*q] {
+                            // (the wrong participant value also propagates to its readers, so a
+                            // value mismatch of a fallback program in a later revision has this key
+                            // when the requested node is on a cycle or reaches one under the current
+                            // inputs; first-revision evaluations are never excused, and neither is a
+                            // node whose cone holds no cycle any more)
                             if let Outcome::Val(_) = want {
                                 key = "fb-participant-after-revalidated-head";
                             }
